@@ -25,6 +25,9 @@ CFG = {
         "it is exercised exhaustively over single-bit flips, truncations and extensions by the harness",
         "the executable specifications in lean/AskarModel/Crypto (SHA-2, HMAC, AES, CBC, KW, GCM, ChaCha20, Poly1305, XChaCha, Concat-KDF) "
         "are faithful to the standards: validated by the standards' own vectors at run time (case c12:selftest), tests not proofs",
+        "'a changed key makes decryption fail' is judged per algorithm: for the composite CBC-HMAC key (RFC 7518 5.2.2, MAC_KEY || ENC_KEY) the tag "
+        "is computed under MAC_KEY only, so by specification a changed ENC_KEY is answered by a padding error or (about 1 flip in 256) a different "
+        "plaintext; the oracle requires rejection for every flip in the MAC half and only forbids the ORIGINAL plaintext for flips in the ENC half",
         "key sizes, nonce and tag lengths of the eight algorithms are copied into the model by hand (Alg.keyLen, Alg.params) and "
         "validated by the keylens / params / nonce_lens cases",
     ],
